@@ -296,6 +296,10 @@ def run_signals(case):
         use = [(M, e) for M, e in zip(MS_LIST, errs) if e > floor and M >= 2]
         if len(use) < 2:
             return errs[-1] <= max(floor, 1e-9 * scale), None
+        if len(use) == 2 and errs[-1] <= floor and all(b_ <= a_ for a_, b_ in zip(errs, errs[1:])):
+            # the error has vanished (at the round-off floor for the finest M) and never grew: the two coarse, still
+            # pre-asymptotic M left above the floor do not measure the order
+            return True, None
         lm, le = np.log([u_[0] for u_ in use]), np.log([u_[1] for u_ in use])
         slope = min(float(np.polyfit(lm, le, 1)[0]), float((le[-1] - le[-2]) / (lm[-1] - lm[-2])))
         return slope <= -(order - (0.6 if len(use) >= 3 else 1.0)), -slope
